@@ -416,7 +416,11 @@ static ssize_t doSend(int fd, const void* data, size_t n, bool whole)
 		s.arrival = std::max(p->in.lastArrival, monoNs() + e->latency + jitter);
 		p->in.lastArrival = s.arrival;
 		p->in.buffered += k;
-		p->in.q.push_back(std::move(s));
+		// a byte stream has no message boundaries: bytes that arrive together are one run of bytes
+		if (!p->in.q.empty() && p->in.q.back().arrival == s.arrival && p->in.q.back().data.size() < (1u << 20))
+			p->in.q.back().data.append(s.data);
+		else
+			p->in.q.push_back(std::move(s));
 		st.bytesSent += k;
 		if (capture && e->conn >= 0)
 			cap[e->side][e->conn].append((const char*)data, k);
